@@ -33,6 +33,8 @@ type FS struct {
 	n       int
 	crashAt int // 0 = never
 	crashed bool
+	killAt  int  // 0 = never: "process killed" just before mutating operation k
+	killed  bool // from then on nothing reaches the file system any more (but nothing is lost either)
 	phase   string
 	log     []Op
 	keepLog bool
@@ -62,6 +64,65 @@ func (f *FS) CrashAt(k int) {
 	f.mu.Lock()
 	f.crashAt = k
 	f.mu.Unlock()
+}
+
+// KillAt arms the other fault: the PROCESS dies just before mutating operation k. Everything done
+// before stays (also what was never synced: the operating system keeps it), nothing after it
+// happens. Restart with RestartAfterKill (which does not discard unsynced state).
+func (f *FS) KillAt(k int) {
+	f.mu.Lock()
+	f.killAt = k
+	f.mu.Unlock()
+}
+
+// Killed tells whether the kill trigger has fired.
+func (f *FS) Killed() bool { f.mu.Lock(); defer f.mu.Unlock(); return f.killed }
+
+// KillOp returns the operation before which the process was killed.
+func (f *FS) KillOp() Op {
+	f.mu.Lock()
+	defer f.mu.Unlock()
+	if f.killAt > 0 && f.killAt <= len(f.log) {
+		return f.log[f.killAt-1]
+	}
+	return Op{}
+}
+
+// RestartAfterKill restarts on exactly the state that existed when the process was killed.
+func (f *FS) RestartAfterKill() {
+	f.mem.ResetToSyncedState()
+	f.mem.SetIgnoreSyncs(false)
+	f.mu.Lock()
+	f.killed = false
+	f.killAt = 0
+	f.mu.Unlock()
+}
+
+// syncAll makes the complete current tree durable (files and directory entries).
+func (f *FS) syncAll(dir string) {
+	names, err := f.mem.List(dir)
+	if err != nil {
+		return
+	}
+	for _, n := range names {
+		p := filepath.Join(dir, n)
+		st, err := f.mem.Stat(p)
+		if err != nil {
+			continue
+		}
+		if st.IsDir() {
+			f.syncAll(p)
+			continue
+		}
+		if fl, err := f.mem.Open(p); err == nil {
+			_ = fl.Sync()
+			_ = fl.Close()
+		}
+	}
+	if d, err := f.mem.OpenDir(dir); err == nil {
+		_ = d.Sync()
+		_ = d.Close()
+	}
 }
 
 // Rearm resets the counter (used for a second crash point relative to "now").
@@ -181,8 +242,19 @@ func (f *FS) op(kind, path string) {
 	if fire {
 		f.crashed = true
 	}
+	kill := f.killAt > 0 && f.n >= f.killAt && !f.killed
+	if kill {
+		f.killed = true
+	}
 	d := f.delay
 	f.mu.Unlock()
+	if kill {
+		// "the process dies here": make everything done so far durable (the operating system keeps
+		// what a killed process wrote), and let nothing that happens afterwards become durable —
+		// the zombie may go on working on the volatile state, RestartAfterKill discards that.
+		f.syncAll("/")
+		f.mem.SetIgnoreSyncs(true)
+	}
 	if fire {
 		f.mem.SetIgnoreSyncs(true)
 	}
@@ -295,4 +367,6 @@ func (fl *file) Sync() error {
 	return fl.File.Sync()
 }
 
-func (o Op) String() string { return fmt.Sprintf("#%d %s %s [%s] %s", o.N, o.Kind, o.Class, o.Phase, o.Path) }
+func (o Op) String() string {
+	return fmt.Sprintf("#%d %s %s [%s] %s", o.N, o.Kind, o.Class, o.Phase, o.Path)
+}
